@@ -126,7 +126,7 @@ class Recorder:
     # cap per full signature (not per site) so that a known-finding signature can never crowd out a new one
     ck = json.dumps(jsonable(s), sort_keys=True)
     self._sig_count[ck] = self._sig_count.get(ck, 0) + 1
-    if self._sig_count[ck] <= self.MAX_VIOL_PER_SITE:
+    if self._sig_count[ck] <= self.MAX_VIOL_PER_SITE or self.only is not None:  # no cap while replaying one case
       self.violations.append({'site': site, 'sig': jsonable(s), 'key': jsonable(key),
                               'detail': jsonable(detail), 'unit': jsonable(self.unit)})
 
